@@ -548,6 +548,7 @@ func initProperties() {
 			Decides: "each write/disallow option reaches its own flag bit with the documented polarity (FLAGSYNC), options reach the matching parameter of HandleRequires/CheckRequires/EncodeText/ReadAnyWithDesc (ARGSWAP), an unknown member is an error exactly when disallowed and is otherwise skipped (NEGPOLARITY, UNKNOWNSKIP), unset fields are written under the same key as present ones (KEYSRC), the descriptor's requires bitmap is only copied, never written (DESCIMMUT).",
 			NotDec:  "the truth table itself under dirty bitmaps and ids > 64/256.",
 			Uses: uses(
+				use("BMSETCONST", "the to-do bitmap of a conversion is marked with constants, not with the declared requiredness", nil),
 				use("BITMAPLEN", "a required field with a sparse high id is still checked / written", nil),
 				use("ARGAGREE", "every fallback look-up of a field uses the same key accessor", nil),
 				use("DEFAULTARM", "an IDL default matters for optional fields only", thriftPkg),
@@ -568,6 +569,7 @@ func initProperties() {
 			Decides: "each annotation key maps to the type whose Request/Response calls the getter/setter of its declared source (ANNOTABLE), the first listed source with a value wins (FIRSTWINS), HTTPConv really enables mapping before flags are computed (FLAGSYNC), fallback options reach the right parameters (ARGSWAP), mapping errors are not dropped (DROPERR).",
 			NotDec:  "precedence/fallback decision table, field-cache replay in the native converter.",
 			Uses: uses(
+				use("BMSETCONST", "a field without an HTTP value stays on the to-do list of the body fallback", inPkgs("conv/j2t")),
 				use("B64STD", "a binary field from an HTTP source is decoded in the standard alphabet", nil),
 				use("PARSEWIDTH", "an HTTP value is parsed at the width of its field: out-of-range text is an error", nil),
 				use("ENCODINGTABLE", "each mapping announces the value codec the converters expect", nil),
